@@ -25,6 +25,10 @@ CLAIMED = {
    "Every pair of a lattice operand alphabet of all seven types (3x3 alphabet incl. collections with overlapping members and empties; 6x6 holes family; UnionMany over every triple of a reduced alphabet; exact affine images; general-position float images kept only when the exact arrangement clearance is >= 2e-6 x magnitude) is run through Union, Intersection, Difference, SymmetricDifference in both operand orders, UnaryUnion and UnionMany, and each result is compared with the closure of the Boolean combination computed on the exact joint arrangement: membership of every face / edge / vertex cell, area, lineal length, isolated point count, validity and canonical shape, plus inclusion-exclusion and partition laws on the library's own areas.",
    "Trust: exact/ + oracle/pair.go. Edge and vertex cells are compared with tolerance 1e-9 x magnitude (the library rounds crossing points); face probes exactly. Members above ~9 vertices and sub-tolerance near-degenerate inputs are outside the bound (the latter by the property).",
    "bounded-exhaustive input enumeration on the real code against an exact-arithmetic arrangement oracle", "4/C01"),
+ "C09": ("model_checking",
+   "Every pair of the lattice operand alphabet over all 28 type pairs (incl. collections with overlapping members, empties, holes family, many-part geometries under 32 translations so the internal R-tree has several levels, exact and general-position affine images) is run through Intersects (both orders), Disjoint, Intersection emptiness and Distance (both orders) and compared with exact rational geometry: intersection from the exact joint arrangement, distance as the square root of the exact minimum squared feature distance, envelope lower bound, symmetry, and the triangle-like inequality on every triple of a reduced alphabet.",
+   "Trust: exact/ + oracle/pair.go + checks/c09.go:exactDist2. Distance tolerance 1e-14 x max(magnitude, distance). General-position images are kept only when the exact arrangement clearance is >= 2e-6 x magnitude.",
+   "bounded-exhaustive input enumeration on the real code against exact rational geometry", "4/C09"),
 }
 
 PENDING = {}
